@@ -3,7 +3,7 @@ Decides the structural clauses of DESIGN.md section 6 C10; does not decide "comp
 import ast
 
 from .. import cxfe, cxa, ir, pyfe
-from ..cxfe import kids, strip, text, walk, name_of, call_parts
+from ..cxfe import kids, strip, text, walk, name_of, call_parts, uname
 from ..core import AnalysisError
 
 # simulation state of an algorithm object: what a completed simulation must no longer change
@@ -237,7 +237,7 @@ def bound_operands(rhs):
         if id(x) in size_objs:
             continue
         if x.get("kind") in ("MemberExpr", "DeclRefExpr"):
-            nm = name_of(x)
+            nm = uname(x)
             if nm and nm not in ("size", "operator[]") and x.get("kind") == "DeclRefExpr" or \
                     (x.get("kind") == "MemberExpr" and cxfe.is_this_member(x)):
                 plain.add(nm)
@@ -270,7 +270,7 @@ def classify_for(tu, fn, n, eff, concrete=None):
     if c.get("kind") != "BinaryOperator" or c.get("opcode") not in ("<", "<=", ">", ">=", "!="):
         return None, "condition is not a bound test"
     lhs, rhs = kids(c)
-    v = name_of(strip(lhs, casts=True))
+    v = uname(strip(lhs, casts=True))
     if v is None:
         return None, "bound test is not on a variable"
     if inc is None:
@@ -318,10 +318,10 @@ def classify_while(tu, fn, n, eff):
     flat(cond)
     for c in conj:
         if c.get("kind") == "BinaryOperator" and c.get("opcode") in ("<", "<="):
-            v = name_of(strip(kids(c)[0], casts=True))
+            v = uname(strip(kids(c)[0], casts=True))
             if v is None:
                 continue
-            bound = {name_of(x) for x in walk(kids(c)[1]) if x.get("kind") in ("MemberExpr", "DeclRefExpr")}
+            bound = {uname(x) for x in walk(kids(c)[1]) if x.get("kind") in ("MemberExpr", "DeclRefExpr")}
             # body: top-level statement `v++` on every path, no other store to v, bound not stored
             top = kids(body) if body.get("kind") == "CompoundStmt" else [body]
             incs = 0
@@ -352,7 +352,7 @@ def classify_forever(tu, fn, n):
     clock_locals = set()
     for x in walk(body):
         if x.get("kind") == "VarDecl" and any("now" == (call_parts(y) or (None,))[0] for y in walk(x)):
-            clock_locals.add(x.get("name"))
+            clock_locals.add(uname(x))
     for x in walk(body):
         if x.get("kind") == "IfStmt":
             p = cxfe.raw_kids(x)
@@ -372,7 +372,7 @@ def classify_forever(tu, fn, n):
             flat(p[0])
             for d in disj:
                 if d.get("kind") == "BinaryOperator" and d.get("opcode") in (">=", ">"):
-                    l, r = name_of(strip(kids(d)[0], casts=True)), name_of(strip(kids(d)[1], casts=True))
+                    l, r = uname(strip(kids(d)[0], casts=True)), uname(strip(kids(d)[1], casts=True))
                     if l in clock_locals and r in params:
                         return "clock-bounded", "leaves when %s (from now()) reaches parameter %s" % (l, r)
     return None, "for(;;) without a clock bound"
